@@ -8,7 +8,7 @@ namespace KinModel.Drv.C12
 open KinModel.Drv KinModel.Schema
 
 /-- field, pointer, quoted value (the reason fragments are C19's); `reobs`: the pointers the object model shows for the
-further observations the run makes on the same error (`reobsSeq`: JSONPointer, Error, Unwrap, JSONPointer) -/
+further observations the run makes on the same error (`reobsSeq`: JSONPointer, Error, Unwrap, JSONPointer, ConvertErrors, JSONPointer) -/
 def errJsonLoc (e : Err) : Json :=
   Json.mkObj ([("field", Json.str e.field), ("pointer", jstrs (e.pointer.map tokStr)),
                ("reobs", Json.arr ((observe true e.rpath reobsSeq).1.map (fun p => jstrs (p.map tokStr))).toArray)] ++
